@@ -17,7 +17,7 @@ EXTENDS Naturals, Sequences, FiniteSets, TLC, Json
 CONSTANTS PatLen, PathLen, Wide,
           PatLen2, PathLen2   \* longer patterns over the small alphabet {a, b, *, ?} (several stars: backtracking) against all paths over {a, b}
 
-Lits == IF Wide THEN {"a", "b", ".", "/", "+", "(", "[", "^", "$", "é", "{", "|"} ELSE {"a", ".", "/", "+", "[", "é"}   \* (é: a multi-byte literal)
+Lits == IF Wide THEN {"a", "b", ".", "/", "+", "(", ")", "[", "]", "^", "$", "é", "{", "}", "|"} ELSE {"a", ".", "/", "+", "[", "é", "(", "|"}   \* (é: a multi-byte literal)
 PatTok == Lits \cup {"*", "?", "\\*", "\\?", "\\\\"}
 PathCh == IF Wide THEN {"a", "b", ".", "/", "*", "?", "\\", "+", "é"} ELSE {"a", "b", "/", "*", "\\", ".", "é"}
 LitOf(t) == CASE t = "\\*" -> "*" [] t = "\\?" -> "?" [] t = "\\\\" -> "\\" [] OTHER -> t
